@@ -38,18 +38,18 @@ type PatSpec struct {
 
 type PackCase struct {
 	HostNodes []Node `json:",omitempty"` // objects at the chroot-relative source path on the HOST side (outside /w): never part of the model's world
-	Op       string // tar | tar-chroot
-	Src      string
-	Root     string
-	Includes []string
-	ISD      bool
-	Rebase   map[string]string
-	Patterns []string
-	UidMap   []IDRange
-	GidMap   []IDRange
-	Chown    *[2]int
-	Overlay  bool
-	Nodes    []Node
+	Op        string // tar | tar-chroot
+	Src       string
+	Root      string
+	Includes  []string
+	ISD       bool
+	Rebase    map[string]string
+	Patterns  []string
+	UidMap    []IDRange
+	GidMap    []IDRange
+	Chown     *[2]int
+	Overlay   bool
+	Nodes     []Node
 }
 
 func (c *PackCase) pats() ([]PatSpec, error) {
@@ -692,6 +692,32 @@ func genPackCase(r *Rng, family string) *PackCase {
 					c.HostNodes = []Node{{Path: rel, Kind: 'd'}, {Path: rel + "/CANARY-host-file", Kind: 'r', Data: "CANARY-host-side"}}
 				}
 			}
+		}
+	}
+	// host-side twins of the regular files under the root: a read that happens outside the jailed thread (another
+	// goroutine, a helper process) resolves the in-root path against the host's root and gets the twin's bytes.
+	// Now and then one file is large: read-ahead, buffering and helper thresholds sit in the megabyte range.
+	if c.Op == "tar-chroot" && len(c.HostNodes) == 0 && filepath.Clean(c.Root) == "/w/root" {
+		reserved := map[string]bool{"w": true, "proc": true, "dev": true, "usr": true, "lib": true, "lib64": true, "bin": true, "sbin": true, "opt": true, "root": true, "etc": true, "tmp": true, "sys": true, "old": true}
+		if r.chance(1, 30) {
+			big := strings.Repeat("big-inside-the-root/", (1<<20)/19+3000)
+			c.Nodes = append(c.Nodes, Node{Path: "/w/root/src/big.bin", Kind: 'r', Perm: 0o644, Data: big, Mtime: 1650})
+			sort.SliceStable(c.Nodes, func(i, j int) bool { return c.Nodes[i].Path < c.Nodes[j].Path })
+		}
+		for _, n := range c.Nodes {
+			if n.Kind != 'r' || !strings.HasPrefix(n.Path, "/w/root/") {
+				continue
+			}
+			rel := strings.TrimPrefix(n.Path, "/w/root")
+			top := strings.Split(strings.TrimPrefix(rel, "/"), "/")[0]
+			if reserved[top] || strings.Contains(rel, "..") {
+				continue
+			}
+			twin := strings.Repeat("T", len(n.Data))
+			if len(twin) < 16 {
+				twin = "TWIN-host-side-of-" + rel
+			}
+			c.HostNodes = append(c.HostNodes, Node{Path: rel, Kind: 'r', Data: twin})
 		}
 	}
 	return c
